@@ -135,7 +135,14 @@ def check(run):
     g = A.graphs.get(fn)
     c14.check_dhtv_copy(run, A)
     means = [e.term for e in g.events if e.kind == 'call' and is_call_to(e.term, 'numpy.mean')]
+    if not means and any('helper not evaluated in place' in k or 'accumulated over blocks' in k for k, _ in (getattr(g, 'not_followed', None) or [])):
+        # the centroid is computed by a method a later change introduced (not evaluated in place), or accumulated block by block: not read here
+        run.unresolved('PAIRED', 'DHTV: centroid = mean over the segment bins of the CURRENT features', fn.loc(),
+                       'the centroid is computed by a helper that is not evaluated in place / accumulated over blocks of the segment')
+        means = None
     # (the operand is features[:, start:end, :], indexed with three items: axis 1 and axis -2 are the same axis)
+    skip_centroid = means is None
+    means = means or []
     okc = bool(means) and const_val(call_arg(means[0], None, 'axis')) in (1, -2)
     if okc:
         src = strip_views(call_arg(means[0], 0))
@@ -144,8 +151,9 @@ def check(run):
         if okc:
             base = strip_views(src.args[0])
             okc = base.op == 'mu' or base.op == 'store' or any(x.op == 'mu' for x in unwrap_gamma(base))
-    run.check(okc, 'PAIRED', 'DHTV: centroid = mean over the segment bins of the CURRENT features', fn.loc(), '', 'the time centroid is not np.mean(features[:, start:end, :], axis=1) of the running features',
-              construct=f'PAIRED::{q}::centroid')
+    if not skip_centroid:
+        run.check(okc, 'PAIRED', 'DHTV: centroid = mean over the segment bins of the CURRENT features', fn.loc(), '', 'the time centroid is not np.mean(features[:, start:end, :], axis=1) of the running features',
+                  construct=f'PAIRED::{q}::centroid')
     # every segment of the plan gets the number of passes the plan gives it: the loop over the passes runs `iterations` times (range(iterations); any other bounds are folded)
     from ..inteval import int_eval, UNKNOWN
     from ..terms import T as _T
